@@ -114,6 +114,15 @@ def corpus(tier):
         out.append((f"P:up:a[{s1}]=b;b=a[{s2}]", loop("i", "up", body), 0))
         body = f"b({s1}) = a(i) + 1.0\nu = b({s2})"
         out.append((f"P:up:b[{s1}]=a;u=b[{s2}]", loop("i", "up", body), 0))
+    # an array READ in an earlier statement than its WRITE (and in an IF
+    # condition guarding the write)
+    for s1, s2 in itertools.product(psubs, psubs):
+        body = f"u = a({s2})\na({s1}) = b(i) + 1.0"
+        out.append((f"Q:up:u=a[{s2}];a[{s1}]=b", loop("i", "up", body), 0))
+        body = f"if (a({s2}) > 2.0) then\n  a({s1}) = b(i)\nend if"
+        out.append((f"Q:up:if(a[{s2}])a[{s1}]=b", loop("i", "up", body), 0))
+        body = f"b(i) = a({s2})\na({s1}) = 2.0 * b(i)"
+        out.append((f"Q:up:b=a[{s2}];a[{s1}]=2b", loop("i", "up", body), 0))
     # 2-deep nests, analysed at the outer (0) and the inner (1) loop
     for s_w, s_r in itertools.product(SUBS2, SUBS2):
         body = f"q{s_w} = q{s_r} + 1.0"
